@@ -104,8 +104,14 @@ func c17GenRuns(r *hx.RNG, pool []net.IP, e2e bool) []result.TracerouteRun {
 			run.Destination.ReverseDns = []string{"dest.example.test."}
 		}
 		nh := r.Range(1, 9)
+		// the listing starts at the run's FIRST TTL, which need not be 1 (MinTTL > 1, end-to-end style
+		// runs): a hop's TTL is not its position + 1
+		first := 1
+		if r.Chance(1, 3) {
+			first = r.Range(2, 200)
+		}
 		for j := 0; j < nh; j++ {
-			h := &result.TracerouteHop{TTL: j + 1}
+			h := &result.TracerouteHop{TTL: first + j}
 			switch k := r.Intn(10); {
 			case k == 0:
 			case k == 1:
